@@ -11,6 +11,7 @@ mod c11;
 mod c12;
 mod c13;
 mod c14;
+mod c15;
 mod common;
 mod selftest;
 
@@ -87,6 +88,7 @@ fn main() {
                 ),
             }
         }
+        "C15" => c15::run(&tier),
         "C14" => {
             let ctr = std::sync::Arc::new(c14::Counters::default());
             let ck = c14::C14 { ctr: ctr.clone(), subsets: common::is_thorough(&tier) };
